@@ -91,10 +91,25 @@ pub fn run(sc: &Value, id: usize, out: Out) {
                 Err(_) => out(json!({"fam": "format", "sc": id, "first": true, "kind": kind, "script": sc, "res": "panic", "lines": [], "text": ""})),
             }
         }
-        "tree" => {
-            let t: AffTree<2> = crate::afftree::build(sc["lhs"].as_array().unwrap());
+        "tree" if sc.get("k").and_then(|v| v.as_u64()).unwrap_or(2) == 4 => tree_k::<4>(sc, id, out),
+        "tree" => tree_k::<2>(sc, id, out),
+        other => panic!("unknown format kind {}", other),
+    }
+}
+
+/// DOT export exists for binary trees only
+trait DotStr { fn dot_str(&self) -> Option<String>; }
+impl DotStr for AffTree<2> { fn dot_str(&self) -> Option<String> { Some(format!("{}", Dot::from(self))) } }
+impl DotStr for AffTree<4> { fn dot_str(&self) -> Option<String> { None } }
+
+fn tree_k<const K: usize>(sc: &Value, id: usize, out: Out) where AffTree<K>: DotStr {
+    let kind = "tree";
+    {
+        {
+            let t: AffTree<K> = crate::afftree::build(sc["lhs"].as_array().unwrap());
             let tj = tree_json(&t, 1.0);
-            let dot = guarded(|| format!("{}", Dot::from(&t)));
+            let nodot = t.dot_str().is_none();
+            let dot = guarded(|| t.dot_str().unwrap_or_default());
             let disp = guarded(|| format!("{}", &t));
             // DOT: node statements  n<idx> [label="<lines>", <attr>];   edge statements  n<a> -> n<b> [label=<l>, <attr>];
             let mut nodes: Vec<Value> = Vec::new();
@@ -143,10 +158,9 @@ pub fn run(sc: &Value, id: usize, out: Out) {
                 }
                 if let Some((i, k, ls, ch)) = cur.take() { dnodes.push(json!({"idx": i, "kind": k, "lines": lex_block(&ls.join("\n")), "children": ch})); }
             }
-            out(json!({"fam": "format", "sc": id, "first": true, "kind": kind, "res": if dot.is_ok() && disp.is_ok() { "ok" } else { "panic" }, "tree": tj,
+            out(json!({"fam": "format", "sc": id, "first": true, "kind": kind, "res": if dot.is_ok() && disp.is_ok() { "ok" } else { "panic" }, "tree": tj, "nodot": nodot,
                        "dot_nodes": nodes, "dot_edges": edges, "dot_other": other, "disp_nodes": dnodes,
                        "disp_header": disp.as_ref().ok().and_then(|d| d.lines().next().map(|s| s.to_string())).unwrap_or_default()}));
         }
-        other => panic!("unknown format kind {}", other),
     }
 }
